@@ -397,6 +397,28 @@ def run(pid, prop, known, tier, seed, replay, n_override, t0, log, scratch):
     def smallest(xs):
         return min(xs, key=lambda cv: len(cv[0][0]))
 
+    # Harnesses that touch real sockets/threads set "recheck": k in props/Cxx.json: a
+    # disagreement or monitor failure counts only if it reproduces k more times in isolation.
+    unreproduced = []
+    k_re = int(prop.get("recheck", 0))
+    if k_re and (D or M_unknown) and H_ok:
+        def reproduces(cv, idx):
+            c, v = cv
+            for _ in range(k_re):
+                rc, cs, _ = harness_run(prop, [c[0]], timeout=int(prop.get("quick_run_timeout", 1800)))
+                if not cs:
+                    return True
+                vs, _ = judge_cases(prop, cs, scratch)
+                if vs[0] is None or vs[0][idx]:
+                    return False
+            return True
+        keepD, keepM = [], []
+        for cv in sorted(D, key=lambda cv: len(cv[0][0]))[:10]:
+            (keepD if reproduces(cv, 0) else unreproduced).append(cv)
+        for cv in sorted(M_unknown, key=lambda cv: len(cv[0][0]))[:10]:
+            (keepM if reproduces(cv, 1) else unreproduced).append(cv)
+        D, M_unknown = keepD, keepM
+
     corr_broken = bool(D) or bool(errors) or not H_ok or not K_ok or not K2_ok or not model_ok
     searched = False
     if (not P_ok or corr_broken) and not M_unknown and H_ok and model_ok and not replay:
@@ -489,6 +511,7 @@ def run(pid, prop, known, tier, seed, replay, n_override, t0, log, scratch):
             "monitor_failures_unknown": len(M_unknown),
             "known_findings_exhibited": sorted(M_known.keys()),
             "failing_input_search_ran": searched,
+            "unreproduced": [cv[0][0][:200] for cv in unreproduced],
         },
         "assumptions": prop.get("assumptions", []),
         "wall_s": round(time.time() - t0, 2),
